@@ -20,6 +20,7 @@ FAIL_WORDS = ('NULL', 'false')
 
 class C06(HistProp):
     id = 'C06'
+    also_release = True
     module = 'Cbor.Props.C06'
     extra_modules = ['Cbor.Props.HeapLoad']
     theorems = ['Props.C06.C06_serialize_alloc_atomic', 'Props.HeapLoad.failed_load_clean', 'HB.hload_refines', 'Props.C06.C06_copy_atomic', 'Props.C06.C06_load_any_schedule', 'Props.C06.C06_copy_any_schedule', 'Heap.copy_spec', 'Lemmas.Safe.load_safe', 'Heap.copy_frame_all', 'Props.C06.new1_atomic', 'Props.C06.new2_atomic', 'Props.C06.newMulti_atomic', 'Props.C06.push_atomic', 'Props.C06.map_add_atomic',
